@@ -117,8 +117,17 @@ def _run_unit(args):
     quiet()
     try:
         return func(item)
-    except Exception as e:  # harness error: must never be silently dropped
+    except Exception as e:  # must never be silently dropped
         p = Partial()
+        frames = traceback.extract_tb(e.__traceback__)
+        lib = [f for f in frames if (os.sep + "rl4co" + os.sep) in f.filename]
+        if lib:
+            # the LIBRARY raised on an input the harness fed it as valid and no check-specific handler claimed it:
+            # that is a finding about the code under test (reported as a violation), not a harness fault
+            last = lib[-1]
+            where = f"{last.filename.split(os.sep + 'rl4co' + os.sep)[-1]}:{last.name}"
+            p.unit_crashes = [dict(item=repr(item)[:300], type=type(e).__name__, message=str(e)[:200], where=where, traceback=traceback.format_exc()[-3000:], key=str(item[0] if isinstance(item, (tuple, list)) and item else item)[:60])]
+            return p
         p.stats["harness_errors"] = 1
         p.info.append(f"HARNESS-ERROR in unit {item!r}: {type(e).__name__}: {e}\n{traceback.format_exc()}")
         return p
@@ -196,6 +205,10 @@ class Report:
             if len(self.samples) < 6:
                 self.samples.append(s)
         self.violations.extend(p.violations)
+        for c in getattr(p, "unit_crashes", []):
+            sig = dict(property=self.pid, env="work_unit", config=c["key"], observable=f"crash:{c['type']}", trigger=f"library_raised:{c['where']}")
+            self.violations.append(dict(signature=sig, replay=dict(kind="unit_crash", **c), msg=f"work unit {c['item']}: the library raised {c['type']}: {c['message']} in {c['where']} on an input the check feeds it as valid (no check-specific handler; the unit's other results are lost)", sig_key=jhash(sig)))
+            self.exhaustive = False
         for l in p.info:
             if l not in self.info:
                 self.info.append(l)
